@@ -131,21 +131,23 @@ def programs(  # noqa: PLR0913
             opts.append(
                 st.lists(block, min_size=1, max_size=3).flatmap(
                     lambda brs: st.builds(
-                        lambda mc, comp: {"op": "parallel", "branches": brs, "cfg": {"max_concurrency": mc, "completion": comp}},
+                        lambda mc, comp, uw: {"op": "parallel", "branches": brs, "cfg": {"max_concurrency": mc, "completion": comp}, **({"unwrap": True} if uw else {})},
                         st.sampled_from([None, None, 1, 2]),
                         st.just({"min": None, "tol": len(brs), "pct": None}) if wait_all
                         else completion_cfgs(len(brs)) if early_completion else st.sampled_from([None, "all_completed"]),
+                        st.sampled_from([False, False, True]),
                     )
                 )
             )
         if "map" in features:
             opts.append(
                 st.builds(
-                    lambda items, b, mc: {"op": "map", "items": items, "body": b,
-                                          "cfg": {"max_concurrency": mc, **({"completion": {"min": None, "tol": len(items), "pct": None}} if wait_all else {})}},
+                    lambda items, b, mc, uw: {"op": "map", "items": items, "body": b, **({"unwrap": True} if uw else {}),
+                                              "cfg": {"max_concurrency": mc, **({"completion": {"min": None, "tol": len(items), "pct": None}} if wait_all else {})}},
                     st.lists(vals, min_size=1, max_size=3),
                     block,
                     st.sampled_from([None, None, 1]),
+                    st.sampled_from([False, False, True]),
                 )
             )
         if "callback" in features:
